@@ -24,6 +24,7 @@ Definition run_line (l : bytes) : bytes :=
       else if beq kind (s2b "rdfxml") then run_rdfxml args
       else if beq kind (s2b "jsonld") then run_jsonld args
       else if beq kind (s2b "rdfa") then run_rdfa args
+      else if beq kind (s2b "mdata") then run_mdata args
       else if beq kind (s2b "res") then run_res args
       else if beq kind (s2b "p5") then run_p5 args
       else if beq kind (s2b "rds") then run_rds args
